@@ -88,33 +88,64 @@ def run_check(modname, tier, seed, replay=None, jobs=16):
         srcs = list(mod.sources(tier, seed, ctx))
         if hasattr(mod, 'probes'):
             srcs += list(mod.probes())
-    t_rec = time.time()
-    cases = record_all(modname, srcs, jobs)
-    flat = []
-    for c in cases:
-        if isinstance(c, list):
-            flat.extend(c)
-        else:
-            flat.append(c)
-    cases = flat
-    for n, c in enumerate(cases):
-        if '__harness_error__' in c:
-            raise MachineryError('recorder failed on %s:\n%s' % (json.dumps(c['src'])[:500], c['__harness_error__']))
-        c['id'] = f'{prop}-{n}'
-    rec_s = time.time() - t_rec
-    judged = [strip_src(c) for c in cases]
+    # ---- record + judge, in slices (bounded memory for the thorough tiers) -------------------
+    SLICE = int(os.environ.get('VERIF_SLICE', '30000'))
+    if hasattr(mod, 'post_judge') or len(srcs) <= SLICE:
+        slices = [srcs]
+    else:
+        slices = [srcs[k:k + SLICE] for k in range(0, len(srcs), SLICE)]
     jenv = getattr(mod, 'JUDGE_ENV', None)
-    verdicts, jstats = tlc.run_judge(judged, tag=f'{prop}-judge', jobs=jobs, extra_env=jenv)
-    byid = {c['id']: c for c in cases}
-    if hasattr(mod, 'post_judge') and not replay:
+    verdicts = []
+    jstats = {'generated': 0, 'distinct': 0, 'chunks': 0, 'tlc_wall_s': 0.0, 'drift': [], 'notes': []}
+    byid = {}          # failing / probe cases (and everything when there is a single slice)
+    distinct = set()
+    feats = {}
+    samples = []
+    ncases = 0
+    rec_s = 0.0
+    all_cases = []
+    for sl in slices:
+        t_rec = time.time()
+        recs = record_all(modname, sl, jobs)
+        cases = []
+        for c in recs:
+            if isinstance(c, list):
+                cases.extend(c)
+            else:
+                cases.append(c)
+        for c in cases:
+            if '__harness_error__' in c:
+                raise MachineryError('recorder failed on %s:\n%s' % (json.dumps(c['src'])[:500], c['__harness_error__']))
+            c['id'] = f'{prop}-{ncases}'
+            ncases += 1
+        rec_s += time.time() - t_rec
+        v, js = tlc.run_judge([strip_src(c) for c in cases], tag=f'{prop}-judge', jobs=jobs, extra_env=jenv)
+        verdicts += list(v)
+        for k in ('generated', 'distinct', 'chunks', 'tlc_wall_s'):
+            jstats[k] += js[k]
+        jstats['drift'] += js.get('drift', [])
+        failing = {cid for cid, _, _ in v}
+        for c in cases:
+            if not replay:
+                if mod.nontrivial(c):
+                    distinct.add(canonical(strip_src({k: v_ for k, v_ in c.items() if k != 'id'})))
+                if hasattr(mod, 'features'):
+                    for ft in mod.features(c):
+                        feats[ft] = feats.get(ft, 0) + 1
+            if c['id'] in failing or c.get('src', {}).get('probe') or len(slices) == 1:
+                byid[c['id']] = c
+        if len(samples) < 3 and cases:
+            samples.append(strip_src(cases[len(cases) // 2]))
+        if len(slices) == 1:
+            all_cases = cases
+    cases = all_cases if len(slices) == 1 else list(byid.values())
+    if hasattr(mod, 'post_judge'):
         extra, pst = mod.post_judge(cases, tier, seed)
         verdicts = list(verdicts) + list(extra)
-        design['states'] += pst.get('states', 0)
-        design['transitions'] += pst.get('transitions', 0)
-        design['runs'].append(pst.get('note', ''))
-    elif hasattr(mod, 'post_judge'):
-        extra, pst = mod.post_judge(cases, tier, seed)
-        verdicts = list(verdicts) + list(extra)
+        if not replay:
+            design['states'] += pst.get('states', 0)
+            design['transitions'] += pst.get('transitions', 0)
+            design['runs'].append(pst.get('note', ''))
     fails = {}
     for cid, step, clauses in verdicts:
         fails.setdefault(cid, []).append((step, clauses))
@@ -186,34 +217,24 @@ def run_check(modname, tier, seed, replay=None, jobs=16):
 
     # ---- evidence --------------------------------------------------------------------------
     if not replay:
-        distinct = set()
-        feats = {}
-        for c in cases:
-            if mod.nontrivial(c):
-                distinct.add(canonical(strip_src({k: v for k, v in c.items() if k != 'id'})))
-            if hasattr(mod, 'features'):
-                for ft in mod.features(c):
-                    feats[ft] = feats.get(ft, 0) + 1
-        samples = [strip_src(c) for c in cases[:: max(1, len(cases) // 3)][:3]]
-        for s in samples:
-            txt = json.dumps(s)
+        for s_ in samples:
+            txt = json.dumps(s_)
             if len(txt) > 4000:
-                s.clear()
-                s.update(json.loads(txt[:0] or '{}'))
-                s['truncated_case_json'] = txt[:4000]
+                s_.clear()
+                s_['truncated_case_json'] = txt[:4000]
         ev = {
             'property_id': prop,
             'tier': tier,
             'seed': seed,
             'level': mod.LEVEL,
             'coverage': {
-                'evaluations': len(cases),
+                'evaluations': ncases,
                 'distinct_nontrivial': len(distinct),
                 'rule': mod.RULE,
                 'samples': samples,
                 'states': design['states'] + jstats['distinct'] + ctx.get('gen_states', 0),
                 'transitions': design['transitions'] + jstats['generated'] + ctx.get('gen_transitions', 0),
-                'traces_validated_against_impl': len(cases),
+                'traces_validated_against_impl': ncases,
                 'design_runs': design['runs'],
                 'generation': ctx.get('gen_note', ''),
                 'reach': feats,
@@ -234,7 +255,7 @@ def run_check(modname, tier, seed, replay=None, jobs=16):
         with open(os.path.join(evdir, f'{prop}.json'), 'w') as fh:
             json.dump(ev, fh, indent=1, default=str)
     print(
-        f'{prop} tier={tier} seed={seed}: {len(cases)} cases judged by TLC '
+        f'{prop} tier={tier} seed={seed}: {ncases} cases judged by TLC '
         f'({jstats["distinct"]} judge states), {len(violations)} violation(s), '
         f'{len(attributed)} attributed to known findings, {time.time() - t0:.1f}s'
     )
